@@ -1,2 +1,15 @@
 /- C04 — hand-written property theorems (the per-function theorems are generated, see Gen/Conv2Thm). -/
 import Libvna.Gen.Conv2All
+import Libvna.Props.C19Solve
+
+namespace Libvna.C04
+open Libvna.LULoop
+
+/-- n-port Z ↔ Y, every n ≥ 1: `vnaconv_ztoyn` / `vnaconv_ytozn` (the executed model `ConvN.inv`) return a matrix that relates
+    exactly the port voltage / current vectors the input relates; proved in Props/C19Solve on top of the LU kernel theorems -/
+theorem nport_ztoy_exact {K : Type} [Field K] [Inhabited K] (mag : K → Float) (z : Array K) (n : Nat) (hn : 0 < n)
+    (hs : z.size = n * n) (hp : ∀ i, i < n → LA.get (LA.lu mag z n).1 n i i ≠ 0) (v i : Fin n → K) :
+    v = (Amat z n).mulVec i ↔ i = (Matrix.of fun r c : Fin n => X (ConvN.inv mag z n) n r c).mulVec v :=
+  ztoyn_relation mag z n hn hs hp v i
+
+end Libvna.C04
